@@ -77,6 +77,13 @@ Theorem C13_liveness_bound :
   forall p s, disciplined true (run p s) = true -> (length (run p s) <= wake_budget p + 2)%nat.
 Proof. exact liveness_bound. Qed.
 
+(* the same bound by program size (items = values passed to yield_/yield_all);
+   for every non-empty program it is below DESIGN's 2*(ops+items)+2 *)
+Theorem C13_liveness_bound_size :
+  forall p s, disciplined true (run p s) = true ->
+  (length (run p s) <= length (p_ops p) + item_count (p_ops p) + 3)%nat.
+Proof. exact liveness_bound_size. Qed.
+
 (* ... and it cannot get stuck: if at the end of the schedule the consumer has
    nothing left to react to (the last poll did not entitle it to another one
    and no wake-up is outstanding) and the environment has completed every
@@ -129,6 +136,34 @@ Theorem C13_monitor_sound_back_pressure :
     exists j, In (x, j) (owners_from 0 (p_ops p)) /\
       forall i' o', (i' <= i)%nat -> nth_error obs i' = Some o' -> forall d, In d (o_done o') -> d < j.
 Proof. exact monitor_sound_back_pressure. Qed.
+
+(* The two wrappers the state machine uses (builder.rs: start / oneshot_check use
+   .into_yielded(); state_machine.rs run_once-style helpers use .into_complete()),
+   modelled as futures-util's filter_map over the stream above.
+   run_mode MRaw is the plain run the theorems above speak about. *)
+Theorem C13_run_mode_raw : forall p s, run_mode MRaw p s = run p s.
+Proof. exact run_mode_raw. Qed.
+
+(* into_yielded: only Pending and the emitted values, in order, each once; after the
+   first None all of them have been delivered and every later poll returns None. *)
+Theorem C13_into_yielded_order :
+  forall p s,
+  exists pre n,
+    results (run_mode MYielded p s) = pre ++ repeat RStreamEnd n /\
+    Forall running_result pre /\
+    (exists later, emits (p_ops p) = yvals pre ++ later) /\
+    (n <> 0%nat -> yvals pre = emits (p_ops p)).
+Proof. exact into_yielded_order. Qed.
+
+(* into_complete: Pending until it returns exactly the closure's result; the internal
+   `next().await.unwrap()` never sees None and the model's loop fuel is never exhausted
+   (both would show as RStreamEnd). *)
+Theorem C13_into_complete_result :
+  forall p s,
+  exists n,
+    results (run_mode MComplete p s) = repeat RPendingP n \/
+    exists rest, results (run_mode MComplete p s) = repeat RPendingP n ++ RComplete (p_ret p) :: rest.
+Proof. exact into_complete_result. Qed.
 
 (* ---- non-vacuity ---- *)
 Definition ex_prog : program :=
@@ -188,6 +223,20 @@ Example c13_monitor_rejects_lost_wakeup :
     [Ob false RPendingP false [] None false] = false.
 Proof. vm_compute. reflexivity. Qed.
 
+
+Example c13_into_yielded :
+  results (run_mode MYielded ex_prog ex_sched) =
+  [RYielded 1; RPendingP; RYielded 2; RYielded 3; RPendingP; RPendingP; RPendingP; RStreamEnd; RStreamEnd].
+Proof. vm_compute. reflexivity. Qed.
+
+(* into_complete drives the generator through all its yields inside one poll *)
+Example c13_into_complete :
+  results (run_mode MComplete ex_prog [Poll; Poll; Complete 0; Poll; Complete 1; Poll]) =
+  [RPendingP; RPendingP; RPendingP; RComplete 7] /\
+  map o_done (run_mode MComplete ex_prog [Poll; Poll; Complete 0; Poll; Complete 1; Poll]) =
+  [[0]; [1; 2]; [3; 4; 5]; [6]].
+Proof. vm_compute. split; reflexivity. Qed.
+
 Print Assumptions C13_order_exactly_once.
 Print Assumptions C13_back_pressure.
 Print Assumptions C13_done_log_exact.
@@ -199,3 +248,7 @@ Print Assumptions C13_monitor_accepts_model.
 Print Assumptions C13_monitor_sound_order.
 Print Assumptions C13_monitor_sound_wakeup.
 Print Assumptions C13_monitor_sound_back_pressure.
+Print Assumptions C13_run_mode_raw.
+Print Assumptions C13_into_yielded_order.
+Print Assumptions C13_into_complete_result.
+Print Assumptions C13_liveness_bound_size.
